@@ -1,6 +1,7 @@
 """C03 - A successful Parse yields exactly the value the text denotes."""
 from vlib import *
 import p_text as T
+import p_dom as D
 import p_num as N
 
 
@@ -31,6 +32,8 @@ def run(tier):
         ctx.add_fail(dict(property="C03", kind="double-value", sig="double-value", shape=dict(kind="double-value"),
                           detail=f"decimal {'-' if ev['neg'] else ''}{''.join(map(str, ev['d']))}e{ev['e']} stored as words {ev['w']}: not the correctly rounded double",
                           case=ev, build="(first build)", replay=dict(harness="Trace_Num", event=ev)))
+    # life cycle (spec/Sonic.tla): Parse into a document that held other trees before, after mutations and earlier parses
+    D.lifecycle(ctx, "C03", builds[:2], 2 if q else 60, 25 if q else 40, 3)
     ctx.samples += events[:3]
     ctx.extra.update(replayed_cases=total, builds=builds, alignments=pads, doubles_validated=len(events))
     ctx.assumptions += ["R-model JsonText!Denote is the only value oracle; doubles are judged by Rounding!RoundsTo in TLC",
@@ -42,4 +45,7 @@ def run(tier):
 
 
 def replay(path):
+    import json
+    if json.load(open(path)).get("replay", {}).get("harness") == "rt_dom.cpp":
+        return D.replay_file(path)
     return T.replay_file(path)
